@@ -101,7 +101,7 @@ def known_pred(kname, a, b, r_spec):
 
 def check_kernel(kname):
     out = []
-    T = int(os.environ.get('VF_QTIMEOUT', '60'))
+    T = int(os.environ.get('VF_QTIMEOUT', '180'))
     t0 = time.time()
     is32 = kname == 'mod_float'
     S = z3.Float32() if is32 else z3.Float64()
